@@ -31,9 +31,14 @@ structure Hom where
 /-- `x.centre()` / `x.norm()`, by the point set (the model's fits take the point sets: `target.centre() -
 source.centre()` is `translationOf source target`, `target.norm() / source.norm()` is `scaleOf source target`) -/
 structure CentreOf (Pts : Type) where
-  p : Pts
+  c : Pts
 structure NormOf (Pts : Type) where
-  p : Pts
+  n : Pts
+
+/-- an array the object owns: the result of `a.copy()` / of a computation that allocates (`_h_matrix_pseudoinverse()`).
+`HomogFamilyAlignment.copy / pseudoinverse` must bind `_h_matrix` to such a value: a dropped `.copy()` does not type-check -/
+structure Owned where
+  m : Mat
 
 def genDefault_procrustes_rotation : Bool :=
   true
@@ -151,12 +156,12 @@ def genSync_AlignmentRotation (np : Np Pts A) (e : Ext Pts A) (self : Obj Pts A)
   .ok self0
 
 def genSync_AlignmentTranslation (np : Np Pts A) (e : Ext Pts A) (self : Obj Pts A) : Except PyExc (Obj Pts A) :=
-  let translation0 := (e.translationOf ((CentreOf.mk self.source)).p ((CentreOf.mk self.target)).p)
+  let translation0 := (e.translationOf ((CentreOf.mk self.source)).c ((CentreOf.mk self.target)).c)
   let self0 := self.setH (setLastCol (e.nDims self.source) translation0 self.h)
   .ok self0
 
 def genSync_AlignmentUniformScale (np : Np Pts A) (e : Ext Pts A) (self : Obj Pts A) : Except PyExc (Obj Pts A) :=
-  let newscale0 := (e.scaleOf ((NormOf.mk self.source)).p ((NormOf.mk self.target)).p)
+  let newscale0 := (e.scaleOf ((NormOf.mk self.source)).n ((NormOf.mk self.target)).n)
   let self0 := self.setH (fillDiag (e.nDims self.source) newscale0 self.h)
   let self1 := self0.setH (setCorner (e.nDims self0.source) self0.h)
   .ok self1
@@ -266,12 +271,12 @@ def genInit_AlignmentRotation (e : Ext Pts A) (self : Obj Pts A) (source target 
 
 def genInit_AlignmentTranslation (e : Ext Pts A) (self : Obj Pts A) (source target : Pts) : Except PyExc (Obj Pts A) :=
   (genInit_Alignment e self source target).bind fun self0 =>
-    (genInit_Translation e self0 (e.translationOf ((CentreOf.mk source)).p ((CentreOf.mk target)).p)).bind fun self1 =>
+    (genInit_Translation e self0 (e.translationOf ((CentreOf.mk source)).c ((CentreOf.mk target)).c)).bind fun self1 =>
       .ok self1
 
 def genInit_AlignmentUniformScale (e : Ext Pts A) (self : Obj Pts A) (source target : Pts) : Except PyExc (Obj Pts A) :=
   (genInit_Alignment e self source target).bind fun self0 =>
-    (genInit_UniformScale e self0 (e.scaleOf ((NormOf.mk source)).p ((NormOf.mk target)).p) (e.nDims source)).bind fun self1 =>
+    (genInit_UniformScale e self0 (e.scaleOf ((NormOf.mk source)).n ((NormOf.mk target)).n) (e.nDims source)).bind fun self1 =>
       .ok self1
 
 def genInit_ThinPlateSplines (np : Np Pts A) (e : Ext Pts A) (self : Obj Pts A) (source target : Pts) (kernel : Option Nat := none) (minsingularval : Rat := ((1 : Rat) / 10000)) : Except PyExc (Obj Pts A) :=
@@ -359,12 +364,12 @@ def genDefaultOpts : Opts :=
 def genCopy (self : Obj Pts A) : Obj Pts A :=
   let new0 := (blank self.cls self.source self.target : Obj Pts A)
   let new1 := self
-  let new0 := new1.setH new1.h
+  let new0 := new1.setH ((Owned.mk new1.h)).m
   new0
 
 def genPseudoinverse (inv : Mat → Mat) (self : Obj Pts A) : Obj Pts A :=
   let selfcopy0 := (genCopy self)
-  let selfcopy1 := selfcopy0.setH (inv self.h)
+  let selfcopy1 := selfcopy0.setH ((Owned.mk (inv self.h))).m
   let tup000 := selfcopy1.target
   let tup010 := selfcopy1.source
   let selfcopy0 := { selfcopy1 with source := tup000 }
